@@ -59,6 +59,11 @@ func genAuthority(r *hk.Rand) authority {
 		if r.Chance(15) {
 			a.Host += "."
 		}
+	case k < 7 && r.Chance(25):
+		// dotted numbers that are NOT IPv4 literals for netip.ParseAddr (too few / too many fields, a field
+		// above 255, a leading zero, hex, a trailing dot): DNS names as far as getDomain is concerned
+		a.Kind = "name"
+		a.Host = hk.Pick(r, []string{"1.2.3", "256.1.1.1", "1.2.3.4.5", "01.2.3.4", "1.2.3.04", "0x7f.0.0.1", "1.2.3.4.", "1.2.3.256", "1..2.3", "1.2.3.", "999.999.999.999", "1.2.3.4a", "00.0.0.0"})
 	case k < 7:
 		a.Kind = "v4"
 		oct := []int{0, 1, 2, 9, 10, 127, 192, 255}
